@@ -350,6 +350,10 @@ class Program:
             return None
         rng, g = self.rng, self.gen
         r = rng.random()
+        if r < 0.03:
+            # a call of a form the library refuses (argument lengths that do not pair up): refused -> the run ends
+            # without verdict as for any rejected liquid call; silently accepted -> twin and records are compared
+            return self.bad_form(sess)
         if r < 0.12:
             return g.gen_misc()
         if r < 0.55:
@@ -360,6 +364,28 @@ class Program:
                 return d
         kind = rng.choice(["aspirate", "dispense", "dispense"])
         return g.gen_addremove(sess, kind, intent="ok")
+
+
+def _bad_form(self, sess):
+    from ..sim.geom import enc
+    rng = self.rng
+    li = rng.randrange(len(self.world["labware"]))
+    geo = self.gen.geos[li]
+    ids = geo.all_ids()
+    kind = rng.choice(["aspirate", "dispense"])
+    form = rng.choice(["one_well_many_volumes", "two_wells_three_volumes", "three_wells_two_volumes"])
+    small = [float(rng.choice([1, 2, 5, 10])) for _ in range(3)]
+    if form == "one_well_many_volumes":
+        wells, vols = rng.choice([ids[0], [ids[0]]]), small[:rng.choice([2, 3])]
+    elif form == "two_wells_three_volumes":
+        wells, vols = [rng.choice(ids), rng.choice(ids)], small
+    else:
+        wells, vols = [rng.choice(ids) for _ in range(3)], small[:2]
+    return {"op": kind, "lab": li, "wells": wells, "volumes": enc(vols), "label": None, "comps": None,
+            "intent": "reject.invalid:" + form}
+
+
+Program.bad_form = _bad_form
 
 
 def list_source(ops):
